@@ -585,7 +585,8 @@ class MyPyAstVisitor:
         func_defn = get_funcdef_definitions(func_node)
         return_stmts = find_return_stmts_recursive(func_defn)
         if return_stmts:
-            types = set()
+            # A dict is used as an insertion-ordered set, so that the result does not depend on hash values
+            types: dict[sds_types.AbstractType, None] = {}
             for return_stmt in return_stmts:
                 if return_stmt.expr is None:  # pragma: no cover
                     continue
@@ -600,15 +601,15 @@ class MyPyAstVisitor:
                             if not isinstance(conditional_branch, mp_nodes.CallExpr | mp_nodes.MemberExpr):
                                 type_ = mypy_expression_to_sds_type(conditional_branch)
                                 if isinstance(type_, sds_types.NamedType | sds_types.TupleType):
-                                    types.add(type_)
+                                    types[type_] = None
                     elif hasattr(return_stmt.expr, "node") and getattr(return_stmt.expr.node, "is_self", False):
                         # The result type is an instance of the parent class
                         expr_type = return_stmt.expr.node.type.type
-                        types.add(sds_types.NamedType(name=expr_type.name, qname=expr_type.fullname))
+                        types[sds_types.NamedType(name=expr_type.name, qname=expr_type.fullname)] = None
                     else:
                         type_ = mypy_expression_to_sds_type(return_stmt.expr)
                         if isinstance(type_, sds_types.NamedType | sds_types.TupleType):
-                            types.add(type_)
+                            types[type_] = None
 
             # We have to sort the list for the snapshot tests
             return_stmt_types = list(types)
